@@ -28,7 +28,9 @@ KINDS = ("positive", "complex", "mixed")
 
 
 def configs(tier):
-    return [{"fn": "save", "kind": k} for k in KINDS] + [{"fn": "load", "kind": k} for k in KINDS] + [{"fn": "autoload", "kind": k} for k in KINDS]
+    # checkpoints written through the ModelSaver callback are part of the statement: its contract (C17's obligation set for
+    # the callback) is shared here
+    return [{"fn": "save", "kind": k} for k in KINDS] + [{"fn": "load", "kind": k} for k in KINDS] + [{"fn": "autoload", "kind": k} for k in KINDS] + [{"fn": "ModelSaver"}]
 
 
 def canaries(tier):
@@ -50,6 +52,9 @@ def _state(kind, nv=2, nh=3, na=1, custom=False):
 
 
 def run_config(ctx, cfg):
+    if cfg["fn"] == "ModelSaver":
+        from lemmas import C17
+        return C17.run_config(ctx, {"cb": "ModelSaver"})
     return {"save": _save, "load": _load, "autoload": _autoload}[cfg["fn"]](ctx, cfg)
 
 
@@ -211,5 +216,8 @@ def _autoload(ctx, cfg):
 
 
 def replay(o):
+    if o["cfg"].get("fn") == "ModelSaver":
+        from drivers import C17 as D17
+        return D17.replay({"cb": "ModelSaver"})
     from drivers import C11 as D
     return D.replay(o["cfg"])
